@@ -332,7 +332,11 @@ pub fn run_chunked(
                     if size != last_size {
                         last_size = size;
                         last_change = std::time::Instant::now();
-                    } else if last_change.elapsed().as_millis() as u64 > timeout_ms {
+                    } else if last_change.elapsed().as_millis() as u64
+                        > (if last_size == 0 { (timeout_ms * 10).max(120_000) } else { timeout_ms })
+                    {
+                        // (before the first record is written the child is still reading its input
+                        // file: allow a generous start-up time on a loaded machine)
                         let _ = child.kill();
                         let _ = child.wait();
                         break Some("timeout");
